@@ -1728,7 +1728,7 @@ let obj = object begin let x = 1; let y = 2; function m(a) -> this.x + a; functi
 pub const MATRIX_PROBE: &str = "print(\"|g=~ arr=~ obj=~\\n\", g, arr, obj);\n";
 
 /// (name, expression text with `Q` standing for a fresh variable name)
-pub const MATRIX_CONSTRUCTS: [(&str, &str); 42] = [
+pub const MATRIX_CONSTRUCTS: [(&str, &str); 47] = [
     ("int", "3"),
     ("bool", "true"),
     ("null", "null"),
@@ -1766,6 +1766,11 @@ pub const MATRIX_CONSTRUCTS: [(&str, &str); 42] = [
     ("false", "false"),
     ("empty-array", "array(0, 0)"),
     ("empty-object", "(object begin end)"),
+    ("object-extends-false", "(object extends false begin let z = 1; end)"),
+    ("object-extends-null", "(object extends null begin function k() -> 1; end)"),
+    ("object-extends-zero", "(object extends 0 begin end)"),
+    ("object-chain-to-false", "(object extends (object extends false begin end) begin end)"),
+    ("array-of-false", "array(1, false)"),
     // undefined operations: whatever surrounds them, the output of what completed before stays and nothing after runs
     ("fault-div", "(t(7) / (g - g))"),
     ("fault-unknown-function", "nosuch_fn(t(8))"),
